@@ -3,7 +3,7 @@
   Generic part: for an additive class whose per-batch statistic distributes over
   batch concatenation (`stat_cat`), every way of cutting the same samples into
   batches, fed in any batch order, computes the same result.  Per-class
-  `stat_cat` lemmas are in TE/Props/C12Stat.lean.
+  `statCat_<family>` lemmas are in TE/Lemmas/FamStat*.lean; the per-family corollaries are at the end of this file.
 -/
 import TE.Lemmas.Parts
 import TE.Lemmas.FamStat
